@@ -934,8 +934,8 @@ def run_c15(ctx, plan):
 # the concurrent cache under several threads (modes S and F)
 
 CONC_PROGS = {"ii": 2, "ii2": 2, "ixi": 2, "upd": 2, "rej": 2, "syncs": 2, "ia": 2, "wgt": 2, "xget": 2,
-              "ttl": 2, "tti": 2, "three": 3, "three2": 3, "burst": 2, "ttix": 2, "grow": 2, "iax": 2, "farw": 2, "farx": 2}
-CONC_QUICK = ["ii", "upd", "rej", "ixi", "wgt", "xget", "burst", "ttix", "grow", "iax", "farx"]
+              "ttl": 2, "tti": 2, "three": 3, "three2": 3, "burst": 2, "ttix": 2, "grow": 2, "iax": 2, "farw": 2, "farx": 2, "iasy": 2}
+CONC_QUICK = ["ii", "upd", "rej", "ixi", "wgt", "xget", "burst", "ttix", "grow", "iax", "farx", "iasy"]
 CONC_LIGHT = ["ii", "rej", "syncs", "grow"]
 
 
